@@ -65,6 +65,9 @@ def run(ck: Check):
                    f"o=sys.stdout.buffer; e=sys.stderr.buffer\n"
                    f"o.write(bytes.fromhex(sys.argv[1])*int(sys.argv[2])); e.write(bytes.fromhex(sys.argv[3])*int(sys.argv[4]))\n"
                    "o.flush(); e.flush()\n"
+                   "c = os.environ.get('LV_CLOSE')\n"
+                   "if c in ('both', 'out'): os.close(1)\n"
+                   "if c in ('both', 'err'): os.close(2)\n"
                    f"time.sleep({sleep})\n"
                    + (f"try:\n    signal.signal({sig}, signal.SIG_DFL)\nexcept OSError:\n    pass\nos.kill(os.getpid(), {sig})\ntime.sleep(5)\n"
                       if sig else "")
@@ -117,6 +120,12 @@ def run(ck: Check):
                 job(f"says{ti}-sig11", sig=11, err=text, use_files=mode)
                 job(f"says{ti}-many", code=3, err=text, nerr=700, use_files=mode)
             job("says-then-timeout", sleep=2, limit=0.7, err=TEXTS[0], out=TEXTS[4], use_files=mode)
+            # a child that writes, CLOSES its stdout and stderr (one or both) and keeps running past the limit - a
+            # program that daemonises, a wrapper that hands its streams on: what it wrote before is captured
+            for closes in ("both", "out", "err"):
+                for n_ in (1, 700, 262144):
+                    job(f"closes-{closes}-then-hangs-{n_}", sleep=1.6, limit=0.6, out=b"o", nout=n_, err=b"e", nerr=min(n_, 700),
+                        use_files=mode, env={"LV_CLOSE": closes})
 
         def do(j):
             idx = jobs.index(j)
@@ -242,6 +251,7 @@ def run(ck: Check):
         # the decision chain in isolation: stub child with arbitrary return codes
         class FakeChild:
             pid = 0
+            stdout = stderr = stdin = None
 
             def __init__(self, rc, hang):
                 self.returncode, self.hang, self.killed = rc, hang, False
